@@ -376,6 +376,7 @@ func checkCmd(args []string) int {
 		unexplained = append(unexplained, o)
 	}
 	violations := 0
+	undecided := 0
 	if knownCount > 0 {
 		for _, kf := range known {
 			if knownHit[kf.Text] {
@@ -395,6 +396,14 @@ func checkCmd(args []string) int {
 		}
 		shown++
 		path, confirmed := writeReplay(u, st, d, id, o, replayDir, *repo)
+		if id == "C16" && (o.Kind == "frame" || o.Kind == "g1") && !confirmed {
+			// the refuted obligation is only a sufficient condition for C16: without an observed race it is reported as
+			// undecided, not as a violation (DESIGN.md 4.2 rule 5)
+			fmt.Printf("UNDECIDED property=%s obligation=%s %s (sufficient condition failed; the race replay observed no race: %s)\n", id, o.Name, o.Where, path)
+			violations--
+			undecided++
+			continue
+		}
 		if confirmed {
 			fmt.Printf("VIOLATION property=%s replay=%s\n", id, path)
 		} else {
@@ -410,6 +419,18 @@ func checkCmd(args []string) int {
 		path := filepath.Join(replayDir, fmt.Sprintf("%s-problem-%d.txt", id, i))
 		os.WriteFile(path, []byte("obligation could not be generated or decided on this tree (it is generated and discharged on the unchanged tree):\n"+pr+"\n"), 0o644)
 		fmt.Printf("VIOLATION property=%s replay=%s no-failing-input-found\n  %s\n", id, path, pr)
+	}
+	raceNote := ""
+	if id == "C16" && *tier == "thorough" {
+		rep, hit := raceReplay(*repo)
+		raceNote = rep
+		if hit {
+			violations++
+			os.MkdirAll(replayDir, 0o755)
+			pth := filepath.Join(replayDir, "C16-race.txt")
+			os.WriteFile(pth, []byte(rep), 0o644)
+			fmt.Printf("VIOLATION property=C16 replay=%s\n", pth)
+		}
 	}
 	// vacuity: minimum obligation counts
 	if min, ok := expectedMin[id]; ok && total < min {
@@ -457,6 +478,7 @@ func checkCmd(args []string) int {
 			"discharged":             discharged,
 			"obligations_generated":  total,
 			"refuted_known_findings": knownCount,
+			"undecided":              undecided,
 			"checker_cmd":            fmt.Sprintf("bin/verif check %s --tier %s   (z3-new -smt2 on generated SMT-LIB; FP bit-precise)", id, *tier),
 			"trusted_base":           trusted,
 			"samples":                samples,
@@ -475,6 +497,7 @@ func checkCmd(args []string) int {
 			"fixed_findings":         fixedLines,
 			"integers":               "enumeration values are mathematical Int (only compared); the one integer computation (roundUp's %) is on 64-bit vectors; floating point is bit-precise Float64, never mathematical",
 			"contract_files":         contractFiles(u),
+			"race_detector_cross_check": raceNote,
 		},
 	}
 	if !*noEvidence {
